@@ -57,6 +57,14 @@ CASES = {
                                                 ("print", V("m"))])],
 }
 
+CASES[("C03", "undefined-property-read-class", "d073103")] = [
+    ("class", "K", None, None, [], []),
+    ("let", "o", call("K")),
+    ("try", [("print", ("prop", V("o"), "zz"))], [("e", "PropertyError", [("print", S("pe read"))])]),
+    ("try", [("print", ("call", ("prop", V("o"), "zz"), [N(1)]))], [("e", "PropertyError", [("print", S("pe call"))])]),
+    ("try", [("print", ("call", ("prop", V("o"), "zz"), []))], [("e", "PropertyError", [("print", S("pe invoke"))])]),
+]
+
 C01_CASES = {
     ("C01", "break-with-live-locals", "a5389bc"):
         [("fn", "f", [], [("let", "c", N(0)), ("while", ("bin", "<", V("c"), N(3)), [
